@@ -23,7 +23,7 @@ import (
 // stay connected and usable. Fixed sweep: the victim's connections cut at byte k.
 
 var c06Causes = []string{"cli_disconnect", "mgr_close", "srv_disc_false", "srv_disc_true", "disc_sockets_false", "disc_sockets_true", "server_close", "cut", "fin", "blackhole"}
-var c06Phases = []string{"idle", "burst", "upgrade", "middleware", "preconnect"}
+var c06Phases = []string{"idle", "burst", "upgrade", "middleware", "preconnect", "opening", "joining"}
 
 func init() {
 	Register(&Property{
@@ -54,12 +54,36 @@ func genC06(p *sim.Plan, r *sim.Rand, tier string) {
 	p.SetB("recovery", r.Bool(0.35))
 	p.Set("ping_interval_ms", int64(r.Range(1, 3))*1000)
 	p.Set("ping_timeout_ms", int64(r.Range(1, 3))*1000)
-	phase := c06Phases[r.Weighted([]int{3, 3, 2, 3, 1})]
+	phase := c06Phases[r.Weighted([]int{3, 3, 2, 3, 1, 3, 2})]
 	p.CfgS["phase"] = phase
 	c1 := c06Causes[r.Intn(len(c06Causes))]
 	p.CfgS["cause1"] = c1
 	if r.Bool(0.25) {
 		p.CfgS["cause2"] = c06Causes[r.Intn(len(c06Causes))]
+	}
+	if phase == "opening" || phase == "joining" {
+		// the windows of connection establishment: API-level causes, stalls concentrated on the
+		// code that opens, admits and closes
+		p.CfgS["cause1"] = c06Causes[r.Intn(7)]
+		if phase == "opening" && r.Bool(0.4) {
+			// the client's own calls racing with its own connection attempt
+			p.CfgS["cause1"] = c06Causes[r.Intn(2)]
+		}
+		if p.CfgS["cause2"] != "" {
+			p.CfgS["cause2"] = c06Causes[r.Intn(7)]
+		}
+		p.Stall = DrawStall(r, 300_000_000)
+		p.Stall.Focus = []string{"client_manager_conn.go", "client_manager.go", "client_socket.go", "namespace.go", "server_conn.go", "server_socket.go", "store.go"}
+		p.Stall.SitePct = []int{100, 50, 25}[r.Intn(3)]
+		p.Stall.RatePPM = []int{20000, 100000, 300000}[r.Intn(3)]
+		p.Stall.MaxNs = []int64{1000, 1_000_000, 20_000_000}[r.Intn(3)]
+		if phase == "joining" && r.Bool(0.6) {
+			// the handler's Join calls against the close: both live in server_socket.go
+			p.Stall.Focus = []string{"server_socket.go"}
+			p.Stall.SitePct = 100
+			p.Stall.RatePPM = []int{100000, 300000}[r.Intn(2)]
+			p.Stall.MaxNs = []int64{1_000_000, 20_000_000}[r.Intn(2)]
+		}
 	}
 	switch phase {
 	case "idle":
@@ -74,6 +98,15 @@ func genC06(p *sim.Plan, r *sim.Rand, tier string) {
 		p.Set("cause_at", r.I64n(p.C("mw_sleep_ms")*1_000_000)+6*(p.C("lat_us")*1000))
 	case "preconnect":
 		p.Set("cause_at", int64(r.Range(0, 3000))*1_000_000)
+	case "opening":
+		// from the Connect call to a few round trips later: dialing, CONNECT in flight, admission
+		p.Set("cause_at", r.I64n(5*(2*p.C("lat_us")*1000+100_000))*int64(r.Intn(4))/3)
+		if r.Bool(0.3) {
+			p.Set("cause_at", r.I64n(2000)) // right behind the Connect call
+		}
+	case "joining":
+		// reactive: the cause fires when the victim's connection handler starts (it joins rooms)
+		p.Set("cause_at", 0)
 	}
 	p.Set("dir", int64(r.Intn(3)))
 	// a black-holed established connection with data in flight is eventually failed by the kernel
@@ -180,7 +213,21 @@ func runC06(e *sim.Env) {
 			})
 		}
 	}
+	joinGate := make(chan struct{})
+	var gateOnce sync.Once
+	victimStarted := false
 	reg.OnNew = func(s *world.SrvSock) {
+		mu.Lock()
+		isVictim := victimStarted
+		mu.Unlock()
+		if phase == "joining" && isVictim {
+			gateOnce.Do(func() { close(joinGate) })
+		}
+		if phase == "joining" && isVictim {
+			for k := 0; k < 6; k++ {
+				s.Socket.Join(sio.Room(fmt.Sprintf("j%d", k)))
+			}
+		}
 		s.Socket.Join("lobby", sio.Room("r-"+string(s.Socket.ID())))
 		s.Socket.OnEvent("up", func(n int) {})
 	}
@@ -239,6 +286,13 @@ func runC06(e *sim.Env) {
 	} else {
 		victim = w.NewSioClient(0, "/", world.ClientOpts{Transports: trs, NoReconnection: true}, &sio.ClientSocketConfig{Auth: map[string]any{"victim": true}})
 		victim.Socket.OnEvent("down", func(n int) {})
+		if phase == "joining" {
+			// the bystander first: the next connection handler to run is the victim's
+			world.WaitUntil(20*time.Second, func() bool { return bystander.Socket.Connected() && len(reg.All()) == 1 })
+		}
+		mu.Lock()
+		victimStarted = true
+		mu.Unlock()
 		victim.Socket.Connect()
 	}
 	start := e.Now()
@@ -262,7 +316,15 @@ func runC06(e *sim.Env) {
 	}
 
 	// ---- the cause(s), all at the same fake instant
-	e.SleepUntil(causeAt)
+	if phase == "joining" {
+		select {
+		case <-joinGate:
+		case <-time.After(20 * time.Second):
+		}
+		causeAt = e.Now()
+	} else {
+		e.SleepUntil(causeAt)
+	}
 	victimSrv := func() sio.ServerSocket {
 		if victim == nil {
 			return nil
@@ -276,8 +338,14 @@ func runC06(e *sim.Env) {
 	switch phase {
 	case "idle", "burst":
 		reached = victim.Socket.Connected()
-	case "upgrade":
+	case "upgrade", "opening":
 		reached = true
+	case "joining":
+		select {
+		case <-joinGate:
+			reached = true
+		default:
+		}
 	case "middleware":
 		mu.Lock()
 		reached = mwRunning >= 0 && e.Now() < mwRunning+int64(mwSleep)
@@ -440,18 +508,18 @@ func runC06(e *sim.Env) {
 	ended := true // did the victim's connection end (it must, unless the cause could not apply)
 	if victim != nil {
 		evs := victim.Events()
-		// The statement is about sockets that had connected. The connect handler and a concurrent
-		// Disconnect()/close may report in either order, so the connected period is taken to start when
-		// the manager opened: with a connect handler run, exactly one disconnect after `open`.
-		nConn, nDisc, opened := 0, 0, false
+		// The statement is about sockets that had connected: with a connect handler run, exactly one
+		// disconnect after it. (The socket's handlers run in one queue: a disconnection that races with
+		// the arrival of the CONNECT reply is reported after the connect handlers, never before them.
+		// A disconnect without any connect - Disconnect() on a socket that never connected - is what
+		// the reference implementation does too.)
+		nConn, nDisc := 0, 0
 		for _, ev := range evs {
 			switch ev.Kind {
-			case "open":
-				opened = true
 			case "connect":
 				nConn++
 			case "disconnect":
-				if !opened {
+				if nConn == 0 {
 					continue
 				}
 				nDisc++
